@@ -63,6 +63,8 @@ EventOK(e) ==
   CASE e.op = "Val"   -> ValOK(e)
     [] e.op = "In"    -> InOK(e)
     [] e.op = "Bytes" -> BytesOK(e)
+    \* bodies of hundreds of kilobytes: compared byte for byte by the driver with its own encoding
+    [] e.op = "BigBytes" -> NoPanic(e.panic) /\ e.enc_ok /\ e.dec_ok
     [] OTHER          -> FALSE
 
 Init == l = 1
